@@ -17,6 +17,7 @@ IP addresses are numbers (`< 2^32` / `< 2^128`); whether the OS lets a socket bi
 what each transport answers to a send (`ok | err | pending`), are inputs.
 -/
 import IrohModel.C18.Model
+import IrohModel.C20.Model
 import IrohModel.Generated.C19
 
 namespace IrohModel.C19
@@ -254,5 +255,69 @@ def senderPollSend (closed : Bool) (maps : Maps) (s : Senders)
       let d := canonical dst
       let srcIp := src.map fun a => (⟨if a.isV4 then .v4 else .v6, beNat a.octets 0⟩ : Ip)
       ((tsPollSend s (.ip d dst.scope srcIp)).1, .ok)
+
+/-! ### From the builder's bind requests to the bound sockets
+
+`Builder::empty()` starts with two built-in wildcard transports (`TransportConfig::default_ipv4`
+/ `default_ipv6`: `0.0.0.0:0` and `[::]:0`, prefix 0, NOT default routes, not user defined, the
+IPv4 one required, the IPv6 one not); every accepted `bind_addr_with_opts` call (C20 model)
+appends a user-defined transport.  `Transports::bind` drops a built-in transport when a
+user-defined default route of the same family is configured, and hands the rest, in order, to
+`IpTransports::bind`. -/
+
+/-- One `bind_addr_with_opts(addr, opts)` call: the part the C20 model reads, plus the address
+(IP number, scope id), whether the OS lets the socket bind, and an identity. -/
+structure BReq where
+  req : C20.Req
+  addr : Nat
+  scope : Nat
+  bindOk : Bool
+  tag : Nat
+deriving DecidableEq, Repr
+
+def famOf : C20.Family → Fam
+  | .v4 => .v4
+  | .v6 => .v6
+
+/-- The `ip::Config` pushed by `bind_addr_with_opts`. -/
+def BReq.cfg (r : BReq) : Cfg :=
+  ⟨famOf r.req.family, r.addr, r.req.prefixLen, r.scope, r.req.isDefaultRoute, r.req.required, r.bindOk, r.tag⟩
+
+/-- `TransportConfig::Ip { config, is_user_defined }`. -/
+structure TCfg where
+  cfg : Cfg
+  userDefined : Bool
+deriving DecidableEq, Repr
+
+/-- Identity of the built-in wildcard socket of a family. -/
+def builtinTag : Fam → Nat
+  | .v4 => Generated.C19.builtinTagV4
+  | .v6 => Generated.C19.builtinTagV6
+
+/-- `TransportConfig::default_ipv4()` / `default_ipv6()`; `ok` = does the wildcard bind succeed. -/
+def builtinCfg (f : Fam) (ok : Bool) : Cfg :=
+  ⟨f, 0, 0, 0, false, f == .v4, ok, builtinTag f⟩
+
+/-- The builder's transport list after the accepted requests `rs`. -/
+def builderTransports (ok4 ok6 : Bool) (rs : List BReq) : List TCfg :=
+  [⟨builtinCfg .v4 ok4, false⟩, ⟨builtinCfg .v6 ok6, false⟩] ++ rs.map fun r => ⟨r.cfg, true⟩
+
+/-- `configs.iter().any(|t| t.is_ipvX_default() && t.is_user_defined())`. -/
+def hasUserDefaultT (f : Fam) (ts : List TCfg) : Bool :=
+  ts.any fun t => t.cfg.isDefault && t.cfg.fam == f && t.userDefined
+
+/-- The filter loop at the top of `Transports::bind`: the configurations handed to
+`IpTransports::bind`, in order. -/
+def ipConfigs (ts : List TCfg) : List Cfg :=
+  (ts.filter fun t => t.userDefined || !hasUserDefaultT t.cfg.fam ts).map (·.cfg)
+
+/-- `Transports::bind`, IP part. -/
+def transportsBind (ts : List TCfg) : Except BindErr Bound := bind (ipConfigs ts)
+
+/-- The whole path: the builder accepts or rejects the requests (C20), then binds. -/
+def builderBind (ok4 ok6 : Bool) (rs : List BReq) : Except (C20.Err × Nat) (Except BindErr Bound) :=
+  match C20.addAll C20.initial 0 (rs.map (·.req)) with
+  | .error e => .error e
+  | .ok _ => .ok (transportsBind (builderTransports ok4 ok6 rs))
 
 end IrohModel.C19
